@@ -87,6 +87,11 @@ def stub_number_formatting():
 
     _ast.unparse, _ast.dump = _unparse, _dump
 
+    # no short-circuiting: CrossHair may replace a call of any function that carries a contract (e.g. its own patched repr(), whose
+    # docstring has `post[]: True`) by an arbitrary symbolic return value; every call must run its real body here.
+    _core0 = __import__("crosshair.core", fromlist=["x"])
+    _core0.consider_shortcircuit = lambda *a, **kw: None
+
     # builtin callable(): CrossHair realises a symbolic argument handed to an unmodelled C builtin; symbolic
     # int/bool/float/str/bytes/containers are never callable, so answer without realising.
     import crosshair.core_and_libs  # noqa: F401  (registers the stock patches we override below)
